@@ -67,6 +67,9 @@ def families(tier):
         for o in (['A', 'B'], ['B', 'A']):
             out.append(dict(prop='C02', family='c02.fifo.parallel_parent', id=f'c02/parpar-g{int(giveup)}-n{nsib}-y{yq}-o{"".join(o)}', cfg=dict(cfg, window=0.7), params=dict(topo='parpar', pshape='sib'),
                             scn=dict(buses={'A': dict(parallel=True), 'B': {}}, order=o, handlers=hs, main=main, actors=[], forwards=[], settle=3.0)))
+    # the grammar-generated corpus shared by the bus properties (vsched/gen.py), judged by this property's oracle
+    from .. import gen
+    out += gen.family('C02', tier, params=dict(topo='gen', pshape='gen'), timeouts=(None,))
     return out
 
 
